@@ -151,7 +151,49 @@ fn raw_driver(path: &FPath, bs: u64) -> String {
 
 /// mirrors exec_syslogprocessor of src/bin/s4.rs (no datetime filters)
 fn stage_driver(path: &FPath, bs: u64) -> String {
-    let mut sp = match SyslogProcessor::new(path.clone(), ft(), bs, tz(), None, None) {
+    stage_driver_w(path, bs, None, None)
+}
+
+/// `DY <mtime>,<a>,<b>`: set the modification time of the file (unix seconds; `-` = leave it), then the stages of
+/// exec_syslogprocessor with the window a..b (`-` = no bound); a log whose timestamps lack a year goes through
+/// process_missing_year.  Answer: DY <result> <n> <items> M <mtime seconds the processor reports>
+fn stage_driver_year(path: &FPath, bs: u64, spec: &str) -> String {
+    use chrono::TimeZone;
+    let mut it = spec.split(',');
+    let mt = it.next().unwrap_or("-");
+    let bound = |s: &str| -> Option<chrono::DateTime<chrono::FixedOffset>> {
+        match s.parse::<i64>() {
+            Ok(v) => tz().timestamp_opt(v, 0).single(),
+            Err(_) => None,
+        }
+    };
+    let after = bound(it.next().unwrap_or("-"));
+    let before = bound(it.next().unwrap_or("-"));
+    if let Ok(secs) = mt.parse::<u64>() {
+        let real = path.split('|').next().unwrap_or("");
+        if let Ok(fh) = std::fs::OpenOptions::new().write(true).open(real) {
+            let _ = fh.set_modified(std::time::UNIX_EPOCH + std::time::Duration::from_secs(secs));
+        }
+    }
+    let out = stage_driver_w(path, bs, after, before);
+    let m = match SyslogProcessor::new(path.clone(), ft(), bs, tz(), None, None) {
+        Ok(sp) => sp
+            .mtime()
+            .duration_since(std::time::UNIX_EPOCH)
+            .map(|d| d.as_secs() as i64)
+            .unwrap_or(-1),
+        Err(_) => -1,
+    };
+    format!("DY{}\tM\t{}", &out[1..], m)
+}
+
+fn stage_driver_w(
+    path: &FPath,
+    bs: u64,
+    after: Option<chrono::DateTime<chrono::FixedOffset>>,
+    before: Option<chrono::DateTime<chrono::FixedOffset>>,
+) -> String {
+    let mut sp = match SyslogProcessor::new(path.clone(), ft(), bs, tz(), after, before) {
         Ok(v) => v,
         Err(_) => return "D\tErrNew".to_string(),
     };
@@ -163,7 +205,7 @@ fn stage_driver(path: &FPath, bs: u64) -> String {
     if !r1.is_ok() {
         return format!("D\t{}\t0", result_name(&r1));
     }
-    let r2 = sp.process_stage2_find_dt(&None);
+    let r2 = sp.process_stage2_find_dt(&after);
     if !r2.is_ok() {
         return format!("D\tStage2{}\t0", result_name(&r2));
     }
@@ -660,6 +702,14 @@ fn main() {
                 match catch_unwind(AssertUnwindSafe(|| raw_driver(&p, bs))) {
                     Ok(s) => println!("{}", s),
                     Err(_) => println!("R\tPANIC"),
+                }
+            }
+            "DY" => {
+                let p = path.clone();
+                let a = arg.to_string();
+                match catch_unwind(AssertUnwindSafe(|| stage_driver_year(&p, bs, &a))) {
+                    Ok(s) => println!("{}", s),
+                    Err(_) => println!("DY\tPANIC"),
                 }
             }
             "D" => {
